@@ -30,6 +30,7 @@ import (
 //	Dir "exporter": library exporter (tls or dtls) against a harness-controlled server presenting ServerCert.
 //	Dir "collector": harness-controlled TLS client presenting ClientCert against the library collector.
 //	Dir "plaintext": Plain names the plaintext scenario.
+//	Dir "sequence": a correctly configured exporter, then a second one (Plain names its fault) against the same collector.
 type Cell struct {
 	Dir        string `json:"dir"`
 	Proto      string `json:"proto"` // tls | dtls
@@ -67,7 +68,12 @@ func TestMain(m *testing.M) {
 		"wrong_san":     caGood.Issue(glue.LeafSpec{CN: "localhost", DNS: []string{"other.example"}}),
 		"no_san":        caGood.Issue(glue.LeafSpec{CN: "localhost"}),
 	}
-	serverSANs = map[string][]string{"wrong_san": {"other.example"}, "no_san": {}}
+	// a bundle: the wrong-SAN leaf (valid chain) followed by a self-signed certificate that carries the
+	// expected names; only the leaf counts
+	decoy := caGood.Issue(glue.LeafSpec{CN: "collector", DNS: []string{"localhost"}, IPs: lo, SelfSign: true})
+	ws := serverCerts["wrong_san"]
+	serverCerts["wrong_san_with_decoy"] = glue.Leaf{CertPEM: append(append([]byte(nil), ws.CertPEM...), decoy.CertPEM...), KeyPEM: ws.KeyPEM}
+	serverSANs = map[string][]string{"wrong_san": {"other.example"}, "no_san": {}, "wrong_san_with_decoy": {"other.example"}}
 	for _, k := range []string{"trusted", "other_ca", "self_signed", "expired", "not_yet_valid"} {
 		serverSANs[k] = []string{"localhost", "127.0.0.1", "::1"}
 	}
@@ -118,7 +124,7 @@ func sendTemplate(ep *exporter.ExportingProcess) error {
 func expectAccept(c Cell) bool {
 	switch c.Dir {
 	case "exporter":
-		ok := c.ServerCert == "trusted" || c.ServerCert == "wrong_san" || c.ServerCert == "no_san"
+		ok := c.ServerCert == "trusted" || c.ServerCert == "wrong_san" || c.ServerCert == "no_san" || c.ServerCert == "wrong_san_with_decoy"
 		ok = ok && sanOK(c.ServerCert, c.ServerName)
 		if c.Proto == "tls" {
 			ok = ok && c.MaxVersion != "1.1"
@@ -141,6 +147,8 @@ func runCell(c Cell) (*ev.Failure, bool) {
 		return exporterVsDTLSServer(c)
 	case "collector":
 		return clientVsCollector(c)
+	case "sequence":
+		return sequence(c)
 	}
 	return plaintext(c)
 }
@@ -463,9 +471,62 @@ func plaintext(c Cell) (*ev.Failure, bool) {
 	return nil, false
 }
 
+// sequence cells: two exporters in one process, one after the other, against the same live
+// collector. The first is correctly configured and completes a session; the second is not and must
+// be refused whatever the first one left behind (session tickets, caches).
+func sequence(c Cell) (*ev.Failure, bool) {
+	in := collector.CollectorInput{Address: "127.0.0.1:0", Protocol: "tcp", MaxBufferSize: 65535, IsEncrypted: true, ServerCert: collectorCert.CertPEM, ServerKey: collectorCert.KeyPEM}
+	if c.ClientCA {
+		in.CACert = caGood.CertPEM
+	}
+	col, err := startCollector(in)
+	if err != nil {
+		return ev.Failf("harness: %v", err), false
+	}
+	defer col.cp.Stop()
+	mk := func(domain uint32, ca []byte, client *glue.Leaf) (*exporter.ExportingProcess, error) {
+		cfg := &exporter.ExporterTLSClientConfig{ServerName: snValue(c.ServerName), CAData: ca}
+		if client != nil {
+			cfg.CertData, cfg.KeyData = client.CertPEM, client.KeyPEM
+		}
+		return exporter.InitExportingProcess(exporter.ExporterInput{CollectorAddress: col.cp.GetAddress().String(), CollectorProtocol: "tcp", ObservationDomainID: domain,
+			TLSClientConfig: cfg, CheckConnInterval: 3 * time.Millisecond})
+	}
+	good, err := mk(999, caGood.CertPEM, clientCerts["trusted"])
+	if err != nil {
+		return ev.Failf("harness: the correctly configured exporter cannot connect: %v", err), false
+	}
+	sendTemplate(good)
+	if !col.waitDelivered(999, 10*time.Second) {
+		good.CloseConnToCollector()
+		return nil, false
+	}
+	time.Sleep(30 * time.Millisecond) // several connection checks read from the session (tickets arrive)
+	good.CloseConnToCollector()
+	var bad *exporter.ExportingProcess
+	switch c.Plain {
+	case "second_exporter_other_ca":
+		bad, err = mk(4242, caOther.CertPEM, clientCerts["trusted"])
+	case "second_exporter_without_client_cert":
+		bad, err = mk(4242, caGood.CertPEM, nil)
+	}
+	if err == nil {
+		sendTemplate(bad)
+		got := col.waitDelivered(4242, 700*time.Millisecond)
+		bad.CloseConnToCollector()
+		if c.Plain == "second_exporter_other_ca" {
+			return ev.Failf("after a correctly configured exporter had completed a session, a second exporter in the same process whose CA does not cover the collector's certificate completed one too (message delivered: %v)", got), true
+		}
+		if got {
+			return ev.Failf("after an exporter with a valid client certificate had completed a session, the collector delivered a message from a second exporter that presented no certificate"), true
+		}
+	}
+	return nil, false
+}
+
 func cells() []Cell {
 	var out []Cell
-	for _, sc := range []string{"trusted", "other_ca", "self_signed", "expired", "not_yet_valid", "wrong_san", "no_san"} {
+	for _, sc := range []string{"trusted", "other_ca", "self_signed", "expired", "not_yet_valid", "wrong_san", "no_san", "wrong_san_with_decoy"} {
 		for _, sn := range []string{"matching", "unset", "mismatching", "ip_matching", "ip_mismatching"} {
 			for _, v := range []string{"1.1", "1.2", "1.3"} {
 				out = append(out, Cell{Dir: "exporter", Proto: "tls", ServerCert: sc, ServerName: sn, MaxVersion: v})
@@ -479,6 +540,10 @@ func cells() []Cell {
 				out = append(out, Cell{Dir: "collector", Proto: "tls", ClientCert: cc, ClientCA: ca, MaxVersion: v})
 			}
 		}
+	}
+	for _, sn := range []string{"matching", "unset"} {
+		out = append(out, Cell{Dir: "sequence", Proto: "tls", ServerName: sn, Plain: "second_exporter_other_ca"},
+			Cell{Dir: "sequence", Proto: "tls", ServerName: sn, ClientCA: true, Plain: "second_exporter_without_client_cert"})
 	}
 	out = append(out,
 		Cell{Dir: "plaintext", Plain: "plain_tcp_client_to_tls_collector", ClientCA: true},
